@@ -56,7 +56,7 @@ var c11Exceptions = map[string]e5Exception{
 	"httpserver.ParseRoller|index:where[0]": {"the early return rejects len(where) != 1 for every directive other than rotate_compress/rotate_disable, and this site excludes those two", []string{"guard:(what != \"rotate_compress\")=true", "guard:(what != \"rotate_disable\")=true"}},
 	"httpserver.hostHasOtherPort|index:allConfigs[thisConfigIdx]": {"the only caller passes the index of the range over the same slice (which only grows inside that loop)", []string{"only-caller:httpserver.makePlaintextRedirects"}},
 	"fastcgi.parseSRV|slice:locator[6:]": {"called only when srvUpstream is set, i.e. the locator has the prefix srv:// (6 bytes) or srv+https://", []string{"only-caller:fastcgi.fastcgiParse"}},
-	"proxy.parseUpstream|slice:u[len(us)+1:portsEnd]": {"us = u[:colonIdx] and u[colonIdx] == ':' so the first '/' at or after colonIdx is strictly after it: portsEnd >= colonIdx+1 = len(us)+1; otherwise portsEnd = len(u) > colonIdx", []string{"guard:(strings.LastIndex(u, \":\") == -1)=false"}},
+	"proxy.parseUpstream|slice:u[len(u[:strings.LastIndex(u,\":\")])+1:portsEnd]": {"us = u[:colonIdx] and u[colonIdx] == ':' so the first '/' at or after colonIdx is strictly after it: portsEnd >= colonIdx+1 = len(us)+1; otherwise portsEnd = len(u) > colonIdx", []string{"guard:(strings.LastIndex(u, \":\") == -1)=false"}},
 	"proxy.NewStaticUpstreams|index:upstream.Hosts[i]": {"Hosts was made with len(to) right before the loop over to; the only call in between, NewHost, does not assign Hosts (its effects through foreign pointers cannot reach this field)", []string{"no-field-store:(*proxy.staticUpstream).NewHost=Hosts", "guard:< builtin.len(φ(to)))=true"}},
 	"status.statusParse|assert:*status.Rule": {"the slice only ever receives *status.Rule values created in this function", []string{"elems:status.Rule"}},
 }
